@@ -6,17 +6,27 @@ import Mathlib.Tactic.Ring
 import Mathlib.Tactic.FieldSimp
 import Mathlib.Tactic.Linarith
 import Mathlib.Tactic.LinearCombination
+import Mathlib.Data.Rat.Defs
+import Mathlib.Data.Nat.Cast.Field
+import Mathlib.Data.Int.Cast.Field
+import Mathlib.Algebra.Order.Field.Basic
+import Mathlib.Algebra.Order.Field.Rat
+import Mathlib.Data.Rat.Cast.Order
 /-! C14 — property theorems (namespace `DendroModel.C14`; helper lemmas in `DendroModel.C14.Aux`).
 
 Clauses of the statement and where they are proved, for every tree / every number type with the stated laws:
  (a) distance matrix: `pdm_pairs_once`, `pdm_cells_nodup`, `pdm_spec`, `pdm_lookup_spec`, `pdm_symm`, `pdm_diag`, `pdm_mrca_spec`
- (b) summaries: `summaries_spec`, `nearest_spec`
- (c) `Tree.mrca`: `tree_mrca_spec`, `tree_mrca_deepest`, `tree_mrca_refresh_current`, `tree_mrca_refresh_spec`,
-     `tree_mrca_current_spec`, and the decided counter-example `tree_mrca_stale_example`
+ (b) summaries: `distances_spec`, `mean_pairwise_spec` (both weightings, explicit mean), `mntd_spec`, `nearest_spec`
+ (c) `Tree.mrca`: `tree_mrca_spec`, `tree_mrca_deepest`, `tree_mrca_refresh_current`, `tree_mrca_reencode_spec` (refresh or
+     never-encoded; `None` iff not covered), `tree_mrca_current_spec`, `tree_mrca_none_current`, `tree_mrca_value_error`, and the
+     decided counter-example `tree_mrca_stale_example`
  (d) NJ / UPGMA bookkeeping: `nj_rowsum_invariant` (+ `nj_init_inv`, `nj_join_inv`, `nj_step_inv`, `nj_pick_mem`),
      `nj_lengths_formula`, `nj_cherry_step`, `nj_terminates`, `upgma_avg_spec` (+ `upgma_join_invariant`, …),
-     `upgma_height_spec`, `upgma_terminates`; the reconstruction claims themselves only as one-step lemmas
-     `nj_recovers_tree_partial`, `upgma_recovers_tree_partial` (the cherry-picking consistency lemma is not proved). -/
+     `upgma_ultrametric`, `upgma_tree_ultrametric`, `upgma_terminates`; the reconstruction claims themselves only as one-step
+     lemmas `nj_recovers_tree_partial`, `upgma_recovers_tree_partial` (the cherry-picking consistency lemma is not proved).
+ Bridge to the driver's number type: `toRat` is a homomorphism on fractions with non-zero denominator (`Aux.toRat_*`), the
+ models are natural in the number type (`Aux.entries_nat`, `Aux.nj_run_rel`, `Aux.up_run_rel`), hence the statements at
+ `Frac`: `frac_pdm_spec`, `frac_pdm_lookup_spec`, `frac_nj_rowsum_invariant`, `frac_nj_tree`, `frac_upgma_tree`. -/
 set_option linter.unusedSectionVars false
 set_option linter.unusedSimpArgs false
 set_option linter.unusedVariables false
@@ -556,10 +566,10 @@ structure NJInv (s : NJ α) : Prop where
   /-- `_nj_xsub` of every pool member is its row sum over the other members of the current pool -/
   rows : ∀ k ∈ s.pool, s.x k = ((s.pool.filter (fun m => m ≠ k)).map (s.d k)).sum
 
-theorem nj_init_inv (n : Nat) (d : Nat → Nat → α) (hd : ∀ a b, d a b = d b a) : NJInv (njInit n d) where
+theorem nj_init_inv (n : Nat) (d : Nat → Nat → α) (hd : ∀ a < n, ∀ b < n, d a b = d b a) : NJInv (njInit n d) where
   nodup := List.nodup_range
   fresh := fun k hk => List.mem_range.mp hk
-  symm := fun a _ b _ => hd a b
+  symm := fun a ha b hb => hd a (List.mem_range.mp ha) b (List.mem_range.mp hb)
   rows := fun k _ => by simp [njInit, rowSum, foldl_add_sum]
 
 /-- (d, bookkeeping) One join keeps the row-sum invariant: after the incremental updates
@@ -646,7 +656,7 @@ theorem nj_step_inv (s : NJ α) (h : NJInv s) : NJInv (njStep s) := by
 /-- (d, bookkeeping) `nj_rowsum_invariant`: started from a symmetric matrix, after any number of passes of the
 `while n > 1` loop every `_nj_xsub` equals the row sum of the current distances over the current pool — the
 quantity the Q-criterion needs — although it is only ever updated incrementally. -/
-theorem nj_rowsum_invariant (n : Nat) (d : Nat → Nat → α) (hd : ∀ a b, d a b = d b a) :
+theorem nj_rowsum_invariant (n : Nat) (d : Nat → Nat → α) (hd : ∀ a < n, ∀ b < n, d a b = d b a) :
     ∀ fuel, NJInv (njRun fuel (njInit n d)) := by
   suffices ∀ fuel (s : NJ α), NJInv s → NJInv (njRun fuel s) from fun fuel => this fuel _ (nj_init_inv n d hd)
   intro fuel
@@ -897,12 +907,6 @@ theorem upgma_avg_spec [CharZero α] (n : Nat) (M : Nat → Nat → α) (fuel : 
   rw [eq_div_iff (mul_ne_zero (hne a ha) (hne b hb))]
   exact h.avg a ha b hb hab
 
-/-- (d) `upgma_height_spec`: the node created by a join sits at half the joined distance above the tips, and each child
-edge spans the difference to the child's own height -/
-theorem upgma_height_spec (s : UP α) (f g : Nat) :
-    (upJoin s f g).h s.next = s.d f g / 2 ∧
-    (upJoin s f g).sub s.next = .node (s.sub f) (s.d f g / 2 - s.h f) (s.sub g) (s.d f g / 2 - s.h g) := by
-  simp [upJoin]
 end up
 
 /-- the leaves below `u` include all taxa of `target` -/
@@ -1197,38 +1201,6 @@ theorem pdm_mrca_spec [AddCommMonoid α] (ℓ : T → α) (key : T → κ) (t : 
   obtain ⟨u, hu, hid, ht⟩ := turn_node_spec ℓ key t a b _ _ _ h h2
   exact ⟨e, h1, u, hu, hid, ht⟩
 
-/-- the length of the unique path between two leaf keys (0 if there is none) -/
-def pathLen [Add α] [Zero α] (ℓ : T → α) (key : T → κ) (t : T) (p : κ × κ) : α :=
-  match turn ℓ key t p.1 p.2 with
-  | some r => r.1
-  | none => 0
-
-/-- (b) `summaries_spec`: the mean pairwise distance (any taxon filter, any normalisation factor) is the mean of the
-unique-path lengths over all unordered pairs of retained leaf taxa — each pair once — and is undefined
-(`NullAssemblageException`) exactly when no pair is retained. -/
-theorem summaries_spec [Field α] (ℓ : T → α) (key : T → κ) (t : T) (h : Good key t) (norm : α) (keep : κ → Bool) :
-    meanPairwise (fun e => e.d) norm keep (entries ℓ key t) =
-      meanOf norm (((pairsOf (t.leaves.map key)).filter fun p => keep p.1 && keep p.2).map (pathLen ℓ key t)) := by
-  have hperm : (pairValues (fun e : Entry κ α => e.d) keep (entries ℓ key t)).Perm
-      (((pairsOf (t.leaves.map key)).filter fun p => keep p.1 && keep p.2).map (pathLen ℓ key t)) := by
-    have e1 : pairValues (fun e : Entry κ α => e.d) keep (entries ℓ key t) =
-        ((((entries ℓ key t).map fun e => (e.a, e.b))).filter fun p => keep p.1 && keep p.2).map (pathLen ℓ key t) := by
-      simp only [pairValues, List.filter_map, List.map_map]
-      apply List.map_congr_left
-      intro e he
-      have := pdm_spec ℓ key t h e (List.mem_of_mem_filter he)
-      simp [pathLen, this]
-    rw [e1]
-    exact ((pdm_pairs_once ℓ key t).filter _).map _
-  simp only [meanPairwise, meanOf]
-  rw [hperm.sum_eq, hperm.length_eq]
-  have : ∀ {l1 l2 : List α}, l1.Perm l2 → l1.isEmpty = l2.isEmpty := by
-    intro l1 l2 hp
-    have := hp.length_eq
-    cases l1 <;> cases l2 <;> simp_all
-  have := this hperm
-  rw [this]
-
 /-- (b) `nearest_spec`: the running minimum used by the nearest-taxon summary (strict `<`, first minimum kept) returns a
 member of the candidate distances that is ≤ all of them -/
 theorem nearest_spec [LinearOrder α] (m : α) (ds : List α) :
@@ -1271,15 +1243,12 @@ theorem nj_recovers_tree_partial [CharZero α] (s : NJ α) (f g : Nat) (h : NJIn
     simp [njJoin, hne a ha, hne b hb]
 
 /-- (d) **partial**: the one-step lemma of UPGMA's correctness. If the joined pair are siblings of an ultrametric tree (every
-other cluster is equally far from both) the new cluster keeps that distance, sits at height `d(f,g)/2`, and its two
-child edges span the differences to the children's heights.  MISSING: that a minimal pair of an ultrametric is a sibling
+other cluster is equally far from both) the new cluster keeps that distance (its height and child edges: `upgma_ultrametric`,
+`upgma_join_heights`).  MISSING: that a minimal pair of an ultrametric is a sibling
 pair, and the induction; clause (d) for UPGMA is tested, not proved. -/
 theorem upgma_recovers_tree_partial [CharZero α] (s : UP α) (f g : Nat) (hf : s.cl f ≠ [])
     (hsib : ∀ k ∈ (s.pool.erase f).erase g, s.d f k = s.d g k) :
-    (∀ k ∈ (s.pool.erase f).erase g, upNewDist s f g k = s.d f k) ∧
-    (upJoin s f g).h s.next = s.d f g / 2 ∧
-    (upJoin s f g).sub s.next = .node (s.sub f) (s.d f g / 2 - s.h f) (s.sub g) (s.d f g / 2 - s.h g) := by
-  refine ⟨?_, by simp [upJoin], by simp [upJoin]⟩
+    ∀ k ∈ (s.pool.erase f).erase g, upNewDist s f g k = s.d f k := by
   intro k hk
   have hsum : ((s.cl f).length : α) + ((s.cl g).length : α) ≠ 0 := by
     have h1 := List.length_pos_iff.mpr hf
@@ -1305,7 +1274,7 @@ theorem nj_step_length (s : NJ α) (h : NJInv s) (h2 : 2 ≤ s.pool.length) : (n
   omega
 
 /-- the `while n > 1` loop of `nj_tree` ends: the fuel `n` given to the model's loop suffices, and exactly one node is left -/
-theorem nj_terminates (n : Nat) (d : Nat → Nat → α) (hd : ∀ a b, d a b = d b a) (hn : 1 ≤ n) :
+theorem nj_terminates (n : Nat) (d : Nat → Nat → α) (hd : ∀ a < n, ∀ b < n, d a b = d b a) (hn : 1 ≤ n) :
     ∃ r, njTree n d = some r := by
   have key : ∀ fuel (s : NJ α), NJInv s → 1 ≤ s.pool.length → s.pool.length ≤ fuel + 1 → (njRun fuel s).pool.length = 1 := by
     intro fuel
@@ -1481,32 +1450,6 @@ theorem tree_mrca_refresh_current (t : T) (hid : (t.nodes.map T.id).Nodup) : Cur
   intro u hu
   simp [freshMask, find_self t hid u hu]
 
-/-- (c) `Tree.mrca` with a requested refresh (`is_bipartitions_updated=False`), as a whole: on the tree `t'` it leaves
-behind (an unrooted basal bifurcation is collapsed by the re-encoding), for any start node whose leaves include the
-requested taxa, the call returns a node below the start node whose leaves include them all, none of whose children does,
-and which lies below every such node — the deepest one. -/
-theorem tree_mrca_refresh_spec (rooted : Bool) (stored : Nat → Nat) (target startId : Nat) (t start : T) (ht : target ≠ 0) :
-    let t' := if !rooted && t.cs.length = 2 then collapseBasal t else t
-    (t'.nodes.map T.id).Nodup → GoodM t' → t'.find? startId = some start → covers target start →
-    ∃ r, treeMrca rooted true stored target startId t = .found t' (some r) ∧ r ∈ start.nodes ∧ covers target r ∧
-      (∀ c ∈ r.cs, ¬ covers target c) ∧ ∀ u ∈ start.nodes, covers target u → r ∈ u.nodes := by
-  intro t' hid hgood hfind hcov
-  obtain ⟨hmem, hsid⟩ := find_mem t' startId start hfind
-  have hcur : Current (freshMask t') start := fun u hu =>
-    tree_mrca_refresh_current t' hid u (nodes_trans t' start hmem u hu)
-  have hg : GoodM start := fun u hu => hgood u (nodes_trans t' start hmem u hu)
-  have hm : freshMask t' startId = start.mask := by simp [freshMask, hfind]
-  refine ⟨scanL (freshMask t') target start [start], ?_, ?_⟩
-  · have hc : ¬ (freshMask t' startId &&& target ≠ target) := by rw [hm]; exact not_not.mpr hcov
-    simp only [treeMrca, ht, if_false, Bool.or_true, Bool.true_and, if_true]
-    show (match t'.find? startId with
-      | none => MrcaResult.startGone
-      | some start => if freshMask t' startId &&& target ≠ target then .found t' none
-          else .found t' (some (scanL (freshMask t') target start [start]))) = _
-    rw [hfind]; simp only [hc, if_false]
-  · obtain ⟨h1, h2, h3⟩ := tree_mrca_spec _ target start ht hcur hg hcov
-    exact ⟨h1, h2, h3, tree_mrca_deepest _ target start ht hcur hg hcov⟩
-
 section diag
 variable [DecidableEq κ] [AddCommMonoid α]
 /-- (a) zero self-distance: the diagonal cell of every mapped leaf taxon reads length 0, 0 edges, and the leaf itself as ancestor -/
@@ -1591,6 +1534,383 @@ theorem upgma_terminates (n : Nat) (M : Nat → Nat → α) (hn : 1 ≤ n) : ∃
   exact ⟨(upRun n (upInit n M)).sub r, by simp only [upgmaTree, hr]⟩
 end uptermination
 
+/-! ## audit follow-up: summaries at full strength, nearest-taxon mean, ultrametric UPGMA result, all `Tree.mrca` entry paths -/
+
+section summaries2
+variable [DecidableEq κ]
+
+/-- a value read off the unique path between two leaf keys: `g (length, edges, turning node)`; 0 if there is no path -/
+def pathVal [Add α] [Zero α] (g : α × Nat × Nat → α) (ℓ : T → α) (key : T → κ) (t : T) (p : κ × κ) : α :=
+  match turn ℓ key t p.1 p.2 with
+  | some r => g r
+  | none => 0
+
+/-- (b) `distances_spec`: `distances()` / the value list every pairwise summary averages — weighted (`g = length`), edge counts
+(`g = edges` cast), under any taxon filter — is, up to order, the list of that path value over all unordered pairs of
+retained leaf taxa, each pair once. -/
+theorem distances_spec [AddCommMonoid α] (g : α × Nat × Nat → α) (ℓ : T → α) (key : T → κ) (t : T) (h : Good key t)
+    (keep : κ → Bool) :
+    (pairValues (fun e => g (e.d, e.steps, e.mrca)) keep (entries ℓ key t)).Perm
+      (((pairsOf (t.leaves.map key)).filter fun p => keep p.1 && keep p.2).map (pathVal g ℓ key t)) := by
+  have e1 : pairValues (fun e : Entry κ α => g (e.d, e.steps, e.mrca)) keep (entries ℓ key t) =
+      ((((entries ℓ key t).map fun e => (e.a, e.b))).filter fun p => keep p.1 && keep p.2).map (pathVal g ℓ key t) := by
+    simp only [pairValues, List.filter_map, List.map_map]
+    apply List.map_congr_left
+    intro e he
+    have := pdm_spec ℓ key t h e (List.mem_of_mem_filter he)
+    simp [pathVal, this]
+  rw [e1]
+  exact ((pdm_pairs_once ℓ key t).filter _).map _
+
+/-- (b) `mean_pairwise_spec`: for either weighting (`g`), any normalisation factor and any taxon filter, the mean pairwise
+summary is `(Σ path values / norm) / #pairs` over the unordered pairs of retained leaf taxa, and it is undefined
+(`NullAssemblageException`) exactly when no pair is retained.  Stated explicitly, not through `meanOf`. -/
+theorem mean_pairwise_spec [Field α] (g : α × Nat × Nat → α) (ℓ : T → α) (key : T → κ) (t : T) (h : Good key t)
+    (norm : α) (keep : κ → Bool) :
+    let L := ((pairsOf (t.leaves.map key)).filter fun p => keep p.1 && keep p.2).map (pathVal g ℓ key t)
+    meanPairwise (fun e => g (e.d, e.steps, e.mrca)) norm keep (entries ℓ key t) =
+      if L = [] then none else some ((L.sum / norm) / (L.length : α)) := by
+  intro L
+  have hperm := distances_spec g ℓ key t h keep
+  have hemp : ∀ {l1 l2 : List α}, l1.Perm l2 → l1.isEmpty = l2.isEmpty := by
+    intro l1 l2 hp
+    have := hp.length_eq
+    cases l1 <;> cases l2 <;> simp_all
+  simp only [meanPairwise, meanOf]
+  rw [hperm.sum_eq, hperm.length_eq, hemp hperm]
+  have hgen : ∀ L : List α, (if L.isEmpty = true then none else some ((L.sum / norm) / (L.length : α))) =
+      if L = [] then none else some ((L.sum / norm) / (L.length : α)) := by
+    intro L; cases L <;> simp
+  exact hgen _
+
+namespace Aux
+theorem meanNearest_congr [Field α] [LinearOrder α] (cell cell' : κ → κ → α) (norm : α) (keep : κ → Bool) (taxa : List κ)
+    (hc : ∀ a ∈ taxa, ∀ b ∈ taxa, a ≠ b → cell a b = cell' a b) :
+    meanNearest cell norm keep taxa = meanNearest cell' norm keep taxa := by
+  simp only [meanNearest]
+  congr 1
+  apply List.filterMap_congr
+  intro a ha
+  have ha' : a ∈ taxa := List.mem_of_mem_filter ha
+  cases hf : (taxa.filter keep).filter (fun b => b ≠ a) with
+  | nil => rfl
+  | cons b bs =>
+    have hmem : ∀ c ∈ b :: bs, c ∈ taxa ∧ c ≠ a := by
+      intro c hc'
+      rw [← hf] at hc'
+      have h1 := List.mem_filter.mp hc'
+      exact ⟨List.mem_of_mem_filter h1.1, by simpa using h1.2⟩
+    have hb := hmem b List.mem_cons_self
+    simp only
+    rw [hc a ha' b hb.1 (Ne.symm hb.2)]
+    congr 2
+    apply List.map_congr_left
+    intro c hc'
+    have := hmem c (List.mem_cons_of_mem _ hc')
+    exact hc a ha' c this.1 (Ne.symm this.2)
+end Aux
+
+/-- (b) `mntd_spec`: the mean nearest-taxon summary as the driver computes it — cells read from the compiled, mirrored table
+(`cellOf`, the `dmatrix[a][b]` of the library), either weighting, any filter and normalisation — equals the same mean with
+every cell replaced by the unique-path value between the two taxa: it is the mean, over retained taxa, of the running
+minimum (`nearest_spec`: a true minimum) of the path values to the other retained taxa; a missing cell never occurs. -/
+theorem mntd_spec [Field α] [LinearOrder α] (g : α × Nat × Nat → α) (ℓ : T → α) (key : T → κ) (t : T) (h : Good key t)
+    (norm : α) (keep : κ → Bool) :
+    meanNearest (cellOf (fun e => g (e.d, e.steps, e.mrca)) (table ℓ key t)) norm keep (mapped key t) =
+      meanNearest (fun a b => pathVal g ℓ key t (a, b)) norm keep (mapped key t) := by
+  apply meanNearest_congr
+  intro a ha b hb hab
+  have hm : ∀ c ∈ mapped key t, c ∈ t.leaves.map key := by
+    intro c hc; unfold mapped at hc; split at hc
+    · simp at hc
+    · exact hc
+  obtain ⟨e, h1, h2⟩ := pdm_lookup_spec ℓ key t h a b hab (hm a ha) (hm b hb)
+  simp only [lookup] at h1
+  simp only [cellOf, pathVal]
+  rw [h1, h2]
+end summaries2
+
+section ultrametric
+variable [Field α]
+
+/-- depths (root-to-leaf sums of edge lengths) of the leaves of a result tree, left to right -/
+def NT.depths : NT α → List α
+  | .leaf _ => [0]
+  | .node f lf g lg => (NT.depths f).map (fun x => x + lf) ++ (NT.depths g).map (fun x => x + lg)
+
+/-- every leaf below a pool node is exactly `_upgma_distance_from_tip` below it -/
+def UPHeights (s : UP α) : Prop := ∀ k ∈ s.pool, ∀ x ∈ NT.depths (s.sub k), x = s.h k
+
+theorem upgma_join_heights (s : UP α) (f g : Nat) (hfr : ∀ k ∈ s.pool, k < s.next) (hf : f ∈ s.pool) (hg : g ∈ s.pool)
+    (h : UPHeights s) : UPHeights (upJoin s f g) ∧ (upJoin s f g).h s.next = s.d f g / 2 := by
+  refine ⟨?_, by simp [upJoin]⟩
+  intro k hk x hx
+  simp only [upJoin, List.mem_append, List.mem_singleton] at hk
+  rcases hk with hk | rfl
+  · have hk1 : k ∈ s.pool := List.mem_of_mem_erase (List.mem_of_mem_erase hk)
+    have hne : k ≠ s.next := fun e => Nat.lt_irrefl _ (e ▸ hfr k hk1)
+    simp only [upJoin, hne, if_false] at hx ⊢
+    exact h k hk1 x hx
+  · simp only [upJoin, if_true, NT.depths, List.mem_append, List.mem_map] at hx ⊢
+    rcases hx with ⟨y, hy, rfl⟩ | ⟨y, hy, rfl⟩
+    · rw [h f hf y hy]; ring
+    · rw [h g hg y hy]; ring
+
+variable [LinearOrder α] [CharZero α]
+
+/-- (d) `upgma_ultrametric` (replaces the definitional `upgma_height_spec`): at every pass of the loop, and in the tree
+returned, all leaves below a pool node lie at the same depth, namely that node's recorded height, and a node created by a
+join has height half the joined distance.  In particular `upgma_tree` always returns an ultrametric tree. -/
+theorem upgma_ultrametric (n : Nat) (M : Nat → Nat → α) (fuel : Nat) : UPHeights (upRun fuel (upInit n M)) := by
+  have inv : ∀ fuel (s : UP α), UPInv (upInit n M).d s → UPHeights s → UPHeights (upRun fuel s) := by
+    intro fuel
+    induction fuel with
+    | zero => intro s _ h; exact h
+    | succ k ih =>
+      intro s hi h
+      simp only [upRun]
+      split
+      · refine ih _ (upgma_step_invariant _ s hi) ?_
+        unfold upStep
+        cases hp : upPick s with
+        | none => exact h
+        | some p =>
+          obtain ⟨f, g⟩ := p
+          obtain ⟨hf, hg, _⟩ := up_pick_mem s hi.nodup f g hp
+          exact (upgma_join_heights s f g hi.fresh hf hg h).1
+      · exact h
+  exact inv fuel _ (up_init_inv n M) (fun k _ x hx => by simp [upInit, NT.depths] at hx ⊢; exact hx)
+
+/-- the returned tree: one depth for all leaves -/
+theorem upgma_tree_ultrametric (n : Nat) (M : Nat → Nat → α) (r : NT α) (hr : upgmaTree n M = some r) :
+    ∃ H : α, ∀ x ∈ NT.depths r, x = H := by
+  simp only [upgmaTree] at hr
+  split at hr
+  · rename_i k hk
+    injection hr with hr; subst hr
+    exact ⟨_, fun x hx => upgma_ultrametric n M n k (by rw [hk]; simp) x hx⟩
+  · simp at hr
+end ultrametric
+
+section mrca2
+/-- (c) every entry path that re-encodes: `is_bipartitions_updated=False` **or** a start node whose stored mask is 0 (tree never
+encoded).  Supersedes the refresh-only statement. -/
+theorem tree_mrca_reencode_spec (rooted refresh : Bool) (stored : Nat → Nat) (target startId : Nat) (t start : T)
+    (ht : target ≠ 0) (hre : stored startId = 0 ∨ refresh = true) :
+    let t' := if !rooted && t.cs.length = 2 then collapseBasal t else t
+    (t'.nodes.map T.id).Nodup → GoodM t' → t'.find? startId = some start →
+    (covers target start →
+      ∃ r, treeMrca rooted refresh stored target startId t = .found t' (some r) ∧ r ∈ start.nodes ∧ covers target r ∧
+        (∀ c ∈ r.cs, ¬ covers target c) ∧ ∀ u ∈ start.nodes, covers target u → r ∈ u.nodes) ∧
+    (¬ covers target start → treeMrca rooted refresh stored target startId t = .found t' none) := by
+  intro t' hid hgood hfind
+  have hb : (decide (stored startId = 0) || refresh) = true := by
+    rcases hre with h | h <;> simp [h]
+  obtain ⟨hmem, hsid⟩ := find_mem t' startId start hfind
+  have hcur : Current (freshMask t') start := fun u hu =>
+    tree_mrca_refresh_current t' hid u (nodes_trans t' start hmem u hu)
+  have hg : GoodM start := fun u hu => hgood u (nodes_trans t' start hmem u hu)
+  have hm : freshMask t' startId = start.mask := by simp [freshMask, hfind]
+  have unfold_eq : treeMrca rooted refresh stored target startId t =
+      (if freshMask t' startId &&& target ≠ target then MrcaResult.found t' none
+        else .found t' (some (scanL (freshMask t') target start [start]))) := by
+    simp only [treeMrca, ht, if_false, hb, Bool.true_and, if_true]
+    show (match t'.find? startId with
+      | none => MrcaResult.startGone
+      | some start => if freshMask t' startId &&& target ≠ target then .found t' none
+          else .found t' (some (scanL (freshMask t') target start [start]))) = _
+    rw [hfind]
+  constructor
+  · intro hcov
+    refine ⟨scanL (freshMask t') target start [start], ?_, ?_⟩
+    · have hc : ¬ (freshMask t' startId &&& target ≠ target) := by rw [hm]; exact not_not.mpr hcov
+      rw [unfold_eq, if_neg hc]
+    · obtain ⟨h1, h2, h3⟩ := tree_mrca_spec _ target start ht hcur hg hcov
+      exact ⟨h1, h2, h3, tree_mrca_deepest _ target start ht hcur hg hcov⟩
+  · intro hn
+    have hc : freshMask t' startId &&& target ≠ target := by rw [hm]; exact hn
+    rw [unfold_eq, if_pos hc]
+
+/-- (c) without re-encoding and with a current encoding, `None` is returned exactly when the start node's leaves do not include
+the requested taxa -/
+theorem tree_mrca_none_current (rooted : Bool) (stored : Nat → Nat) (target startId : Nat) (t start : T) (ht : target ≠ 0)
+    (h0 : stored startId ≠ 0) (hfind : t.find? startId = some start) (hcur : Current stored start)
+    (hn : ¬ covers target start) :
+    treeMrca rooted false stored target startId t = .found t none := by
+  obtain ⟨hmem, hsid⟩ := find_mem t startId start hfind
+  have hm : stored startId = start.mask := by rw [← hsid]; exact hcur start (nodes_self _)
+  have hc : stored startId &&& target ≠ target := by rw [hm]; exact hn
+  simp only [treeMrca, ht, if_false, h0, decide_false, Bool.or_false, Bool.false_and, Bool.false_eq_true]
+  rw [hfind]; exact if_pos hc
+
+/-- an empty taxon set is refused (`ValueError("Null leafset bitmask (0)")`), whatever else is passed -/
+theorem tree_mrca_value_error (rooted refresh : Bool) (stored : Nat → Nat) (startId : Nat) (t : T) :
+    treeMrca rooted refresh stored 0 startId t = .valueError := by simp [treeMrca]
+end mrca2
+
+/-! ## the bridge to the number type the driver runs: `Frac` computes in ℚ
+
+`Frac.toRat` reads a `Frac` as the rational it denotes. On fractions with a non-zero denominator (everything the protocol
+parser produces, and everything the operations return) every operation the models use commutes with `toRat`, and `Frac.lt`
+is `<` on ℚ.  Together with the naturality lemmas below this transports the theorems above (proved for every commutative
+monoid / field) to the exact definitions `drv_c14` executes at `α := Frac`. -/
+
+/-- the rational a `Frac` denotes -/
+def toRat (a : Frac) : ℚ := (a.num : ℚ) / (a.den : ℚ)
+
+namespace Aux
+theorem mk'_spec (n : Int) (d : Nat) (hd : d ≠ 0) : (Frac.mk' n d).den ≠ 0 ∧ toRat (Frac.mk' n d) = (n : ℚ) / (d : ℚ) := by
+  have hg : Nat.gcd n.natAbs d ≠ 0 := fun h => hd (Nat.eq_zero_of_gcd_eq_zero_right h)
+  have hgd : Nat.gcd n.natAbs d ∣ d := Nat.gcd_dvd_right _ _
+  have hgn : ((Nat.gcd n.natAbs d : Nat) : Int) ∣ n := by
+    rw [Int.natCast_dvd]; exact Nat.gcd_dvd_left _ _
+  have hd' : (d == 0) = false := by simpa using hd
+  have hg' : (Nat.gcd n.natAbs d == 0) = false := by simpa using hg
+  simp only [Frac.mk', hd', hg', Bool.false_eq_true, if_false]
+  constructor
+  · exact Nat.ne_of_gt (Nat.div_pos (Nat.le_of_dvd (Nat.pos_of_ne_zero hd) hgd) (Nat.pos_of_ne_zero hg))
+  · have hgq : ((Nat.gcd n.natAbs d : Nat) : ℚ) ≠ 0 := by exact_mod_cast hg
+    simp only [toRat]
+    rw [Int.cast_div hgn (by exact_mod_cast hg), Nat.cast_div hgd hgq]
+    simp only [Int.cast_natCast]
+    rw [div_div_div_cancel_right₀ hgq]
+
+theorem toRat_zero : toRat (0 : Frac) = 0 := by simp [toRat, show (0 : Frac) = Frac.zero from rfl, Frac.zero]
+theorem ok_zero : (0 : Frac).den ≠ 0 := by simp [show (0 : Frac) = Frac.zero from rfl, Frac.zero]
+
+theorem toRat_add (a b : Frac) (ha : a.den ≠ 0) (hb : b.den ≠ 0) : (a + b).den ≠ 0 ∧ toRat (a + b) = toRat a + toRat b := by
+  have h := mk'_spec (a.num * b.den + b.num * a.den) (a.den * b.den) (Nat.mul_ne_zero ha hb)
+  refine ⟨h.1, ?_⟩
+  show toRat (Frac.add a b) = _
+  simp only [Frac.add]; rw [h.2]
+  have ha' : (a.den : ℚ) ≠ 0 := by exact_mod_cast ha
+  have hb' : (b.den : ℚ) ≠ 0 := by exact_mod_cast hb
+  simp only [toRat]; push_cast; field_simp
+
+theorem toRat_neg (a : Frac) : (Frac.neg a).den = a.den ∧ toRat (Frac.neg a) = - toRat a := by
+  simp [Frac.neg, toRat, neg_div]
+
+theorem toRat_sub (a b : Frac) (ha : a.den ≠ 0) (hb : b.den ≠ 0) : (a - b).den ≠ 0 ∧ toRat (a - b) = toRat a - toRat b := by
+  have hn := toRat_neg b
+  have h := toRat_add a (Frac.neg b) ha (by rw [hn.1]; exact hb)
+  refine ⟨h.1, ?_⟩
+  show toRat (Frac.add a (Frac.neg b)) = _
+  have := h.2
+  rw [show a + Frac.neg b = Frac.add a (Frac.neg b) from rfl] at this
+  rw [this, hn.2]; ring
+
+theorem toRat_mul (a b : Frac) (ha : a.den ≠ 0) (hb : b.den ≠ 0) : (a * b).den ≠ 0 ∧ toRat (a * b) = toRat a * toRat b := by
+  have h := mk'_spec (a.num * b.num) (a.den * b.den) (Nat.mul_ne_zero ha hb)
+  refine ⟨h.1, ?_⟩
+  show toRat (Frac.mul a b) = _
+  simp only [Frac.mul]; rw [h.2]
+  simp only [toRat]; push_cast; rw [mul_div_mul_comm]
+
+theorem toRat_div (a b : Frac) (ha : a.den ≠ 0) (hb : b.den ≠ 0) : (a / b).den ≠ 0 ∧ toRat (a / b) = toRat a / toRat b := by
+  show (Frac.div a b).den ≠ 0 ∧ toRat (Frac.div a b) = _
+  have ha' : (a.den : ℚ) ≠ 0 := by exact_mod_cast ha
+  have hb' : (b.den : ℚ) ≠ 0 := by exact_mod_cast hb
+  by_cases h0 : b.num = 0
+  · simp [Frac.div, h0, Frac.zero, toRat]
+  · have h0' : (b.num == 0) = false := by simpa using h0
+    have hnb : (b.num : ℚ) ≠ 0 := by exact_mod_cast h0
+    have habs : b.num.natAbs ≠ 0 := by simpa using h0
+    by_cases hp : b.num > 0
+    · have h := mk'_spec (a.num * b.den) (a.den * b.num.natAbs) (Nat.mul_ne_zero ha habs)
+      simp only [Frac.div, h0', Bool.false_eq_true, if_false, hp, if_true]
+      refine ⟨h.1, ?_⟩
+      rw [h.2]
+      have : ((b.num.natAbs : Nat) : ℚ) = (b.num : ℚ) := by
+        rw [← Int.cast_natCast, Int.natAbs_of_nonneg (le_of_lt hp)]
+      simp only [toRat]; push_cast; rw [this]; field_simp
+    · have h := mk'_spec (-(a.num * b.den)) (a.den * b.num.natAbs) (Nat.mul_ne_zero ha habs)
+      simp only [Frac.div, h0', Bool.false_eq_true, if_false, hp]
+      refine ⟨h.1, ?_⟩
+      rw [h.2]
+      have hneg : b.num < 0 := lt_of_le_of_ne (not_lt.mp hp) h0
+      have : ((b.num.natAbs : Nat) : ℚ) = -(b.num : ℚ) := by
+        rw [← Int.cast_natCast, Int.ofNat_natAbs_of_nonpos (le_of_lt hneg)]; push_cast; ring
+      simp only [toRat]; push_cast; rw [this]; field_simp
+
+theorem toRat_natCast (n : Nat) : ((n : Nat) : Frac).den ≠ 0 ∧ toRat ((n : Nat) : Frac) = (n : ℚ) := by
+  show (Frac.ofNat n).den ≠ 0 ∧ toRat (Frac.ofNat n) = _
+  simp [Frac.ofNat, toRat]
+
+theorem toRat_lt (a b : Frac) (ha : a.den ≠ 0) (hb : b.den ≠ 0) : a < b ↔ toRat a < toRat b := by
+  show Frac.lt a b = true ↔ _
+  have ha' : (0 : ℚ) < (a.den : ℚ) := by exact_mod_cast Nat.pos_of_ne_zero ha
+  have hb' : (0 : ℚ) < (b.den : ℚ) := by exact_mod_cast Nat.pos_of_ne_zero hb
+  simp only [Frac.lt, decide_eq_true_eq, toRat]
+  rw [div_lt_div_iff₀ ha' hb']
+  constructor
+  · intro h; exact_mod_cast h
+  · intro h; exact_mod_cast h
+end Aux
+
+section bridge2
+variable {β : Type}
+/-! ### naturality of the distance-matrix model in the number type -/
+/-- relabel the number carried by a cell / a table row -/
+def mapE (φ : α → β) (e : Entry κ α) : Entry κ β := ⟨e.a, e.b, φ e.d, e.steps, e.mrca⟩
+def mapRow (φ : α → β) (r : κ × α × Nat) : κ × β × Nat := (r.1, φ r.2.1, r.2.2)
+
+/-- `φ` preserves 0 and + -/
+structure IsAddHom [Zero α] [Add α] [Zero β] [Add β] (φ : α → β) : Prop where
+  zero : φ 0 = 0
+  add : ∀ x y, φ (x + y) = φ x + φ y
+
+namespace Aux
+section natural
+variable [Zero α] [Add α] [Zero β] [Add β]
+
+theorem lift_nat (φ : α → β) (hφ : IsAddHom φ) (ℓ : T → α) (c : T) (tab : Tab κ α) :
+    lift (fun u => φ (ℓ u)) c (tab.map (mapRow φ)) = (lift ℓ c tab).map (mapRow φ) := by
+  simp [lift, mapRow, hφ.add, List.map_map, Function.comp_def]
+
+theorem pairNode_nat (φ : α → β) (hφ : IsAddHom φ) (ℓ : T → α) (m : Nat) : ∀ tabs : List (T × Tab κ α),
+    pairNode (fun u => φ (ℓ u)) m (tabs.map fun ct => (ct.1, ct.2.map (mapRow φ))) = (pairNode ℓ m tabs).map (mapE φ)
+  | [] => by simp [pairNode]
+  | (c1, tab1) :: rest => by
+    simp only [List.map_cons, pairNode, List.map_append, pairNode_nat φ hφ ℓ m rest]
+    congr 1
+    simp [List.map_flatMap, List.flatMap_map, List.map_map, mapE, mapRow, hφ.add, Function.comp_def]
+
+mutual
+theorem walk_nat (φ : α → β) (hφ : IsAddHom φ) (ℓ : T → α) (key : T → κ) : ∀ t : T, walk (fun u => φ (ℓ u)) key t =
+    ((walk ℓ key t).1.map (mapRow φ), (walk ℓ key t).2.map (mapE φ))
+  | .node i x l s [] => by simp [walk, mapRow, hφ.zero]
+  | .node i x l s (c :: cs) => by
+    have ih := walkL_nat φ hφ ℓ key (c :: cs)
+    rw [walk, walk, ih]
+    refine Prod.ext ?_ ?_
+    · simp only [List.flatMap_map, List.map_flatMap]
+      congr 1; funext ct; exact lift_nat φ hφ ℓ ct.1 ct.2
+    · simp only [List.map_append, pairNode_nat φ hφ ℓ]
+theorem walkL_nat (φ : α → β) (hφ : IsAddHom φ) (ℓ : T → α) (key : T → κ) : ∀ cs : List T, walkL (fun u => φ (ℓ u)) key cs =
+    ((walkL ℓ key cs).1.map (fun ct => (ct.1, ct.2.map (mapRow φ))), (walkL ℓ key cs).2.map (mapE φ))
+  | [] => by simp [walkL]
+  | c :: cs => by
+    rw [walkL, walkL, walk_nat φ hφ ℓ key c, walkL_nat φ hφ ℓ key cs]; simp
+end
+
+theorem entries_nat (φ : α → β) (hφ : IsAddHom φ) (ℓ : T → α) (key : T → κ) (t : T) :
+    entries (fun u => φ (ℓ u)) key t = (entries ℓ key t).map (mapE φ) := by
+  simp [entries, walk_nat φ hφ ℓ key t]
+
+theorem table_nat (φ : α → β) (hφ : IsAddHom φ) (ℓ : T → α) (key : T → κ) (t : T) :
+    table (fun u => φ (ℓ u)) key t = (table ℓ key t).map (mapE φ) := by
+  simp only [table, entries_nat φ hφ ℓ key t, mirror, diag, List.map_append, List.map_map]
+  congr 1
+  · split <;> simp [mapE, hφ.zero, Function.comp_def]
+
+theorem lookup_nat [DecidableEq κ] (φ : α → β) (tbl : List (Entry κ α)) (a b : κ) :
+    lookup (tbl.map (mapE φ)) a b = (lookup tbl a b).map (mapE φ) := by
+  simp only [lookup, List.find?_map]
+  congr 1
+end natural
+end Aux
+end bridge2
+
 /-! ## non-vacuity: the hypotheses used above are satisfiable (and the stale case really differs) -/
 section examples
 /-- a polytomy with a unary node and a `None` length: ((t0:1, t1:None, (t2:1/2)):2, t3) -/
@@ -1619,8 +1939,412 @@ example : ((entries (α := Int) (fun _ => 1) taxonKey exTree).map fun e => (e.a,
     [(0, 1), (0, 2), (1, 2), (0, 3), (1, 3), (2, 3)] := by decide
 /-- a symmetric matrix exists, so `NJInv`/`UPInv` are inhabited by the initial states -/
 example : NJInv (njInit (α := ℚ) 4 fun a b => if a = b then 0 else 1) :=
-  nj_init_inv 4 _ (fun a b => by by_cases h : a = b <;> simp [h, eq_comm])
+  nj_init_inv 4 _ (fun a _ b _ => by by_cases h : a = b <;> simp [h, eq_comm])
 example : UPInv (upInit (α := ℚ) 4 fun _ _ => 1).d (upInit 4 fun _ _ => 1) := up_init_inv 4 _
 end examples
+
+
+/-! ### the fractions that denote numbers, as a carrier in its own right (proof device only) -/
+/-- fractions with a non-zero denominator, with the operations of `Frac` (closed: `toRat_add` …) -/
+def VFrac : Type := {a : Frac // a.den ≠ 0}
+namespace VFrac
+instance : Zero VFrac := ⟨⟨0, ok_zero⟩⟩
+instance : Add VFrac := ⟨fun a b => ⟨a.1 + b.1, (toRat_add a.1 b.1 a.2 b.2).1⟩⟩
+instance : Sub VFrac := ⟨fun a b => ⟨a.1 - b.1, (toRat_sub a.1 b.1 a.2 b.2).1⟩⟩
+instance : Mul VFrac := ⟨fun a b => ⟨a.1 * b.1, (toRat_mul a.1 b.1 a.2 b.2).1⟩⟩
+instance : Div VFrac := ⟨fun a b => ⟨a.1 / b.1, (toRat_div a.1 b.1 a.2 b.2).1⟩⟩
+instance : NatCast VFrac := ⟨fun n => ⟨(n : Frac), (toRat_natCast n).1⟩⟩
+instance : LT VFrac := ⟨fun a b => a.1 < b.1⟩
+instance : DecidableRel (α := VFrac) (· < ·) := fun a b => inferInstanceAs (Decidable (a.1 < b.1))
+/-- forget the proof: back to the driver's type -/
+def val (a : VFrac) : Frac := a.1
+/-- the rational denoted -/
+def rat (a : VFrac) : ℚ := toRat a.1
+theorem val_hom : IsAddHom val := ⟨rfl, fun _ _ => rfl⟩
+theorem rat_hom : IsAddHom rat := ⟨toRat_zero, fun a b => (toRat_add a.1 b.1 a.2 b.2).2⟩
+end VFrac
+
+/-- every length the driver hands to the model denotes a rational -/
+theorem fracLen_ok (u : T) : (fracLen u).den ≠ 0 := by
+  unfold fracLen
+  split
+  · split
+    · exact ok_zero
+    · assumption
+  · exact ok_zero
+
+/-- the driver's length function, with the proofs attached -/
+def fracLenV (u : T) : VFrac := ⟨fracLen u, fracLen_ok u⟩
+/-- edge lengths as true rationals (`None` = 0) -/
+def ratLen (u : T) : ℚ := toRat (fracLen u)
+
+/-- (a, at the driver's own type) `frac_pdm_spec`: the cells `drv_c14` computes — `entries fracLen taxonKey t`, exact `Frac`
+arithmetic with gcd normalisation — denote, for every tree whose leaves carry distinct taxa, the length of the unique path
+computed in ℚ from the rational edge lengths, together with its edge count and turning node; and every cell value has a
+non-zero denominator. -/
+theorem frac_pdm_spec (t : T) (h : Good taxonKey t) :
+    ∀ e ∈ entries fracLen taxonKey t, e.d.den ≠ 0 ∧
+      turn ratLen taxonKey t e.a e.b = some (toRat e.d, e.steps, e.mrca) := by
+  intro e he
+  have e1 : entries fracLen taxonKey t = (entries fracLenV taxonKey t).map (mapE VFrac.val) :=
+    entries_nat VFrac.val VFrac.val_hom fracLenV taxonKey t
+  have e2 : entries ratLen taxonKey t = (entries fracLenV taxonKey t).map (mapE VFrac.rat) :=
+    entries_nat VFrac.rat VFrac.rat_hom fracLenV taxonKey t
+  rw [e1] at he
+  obtain ⟨e', he', rfl⟩ := List.mem_map.mp he
+  have hq := pdm_spec ratLen taxonKey t h (mapE VFrac.rat e') (by rw [e2]; exact List.mem_map_of_mem he')
+  exact ⟨e'.d.2, hq⟩
+
+/-- (a, at the driver's own type) the same through the mirrored lookup the accessors use -/
+theorem frac_pdm_lookup_spec (t : T) (h : Good taxonKey t) (a b : Nat) (hab : a ≠ b)
+    (ha : a ∈ t.leaves.map taxonKey) (hb : b ∈ t.leaves.map taxonKey) :
+    ∃ e, lookup (table fracLen taxonKey t) a b = some e ∧ e.d.den ≠ 0 ∧
+      turn ratLen taxonKey t a b = some (toRat e.d, e.steps, e.mrca) := by
+  have e1 : table fracLen taxonKey t = (table fracLenV taxonKey t).map (mapE VFrac.val) :=
+    table_nat VFrac.val VFrac.val_hom fracLenV taxonKey t
+  have e2 : table ratLen taxonKey t = (table fracLenV taxonKey t).map (mapE VFrac.rat) :=
+    table_nat VFrac.rat VFrac.rat_hom fracLenV taxonKey t
+  obtain ⟨eq, h1, h2⟩ := pdm_lookup_spec ratLen taxonKey t h a b hab ha hb
+  rw [e2, lookup_nat] at h1
+  cases hl : lookup (table fracLenV taxonKey t) a b with
+  | none => simp [hl] at h1
+  | some e' =>
+    simp only [hl, Option.map_some, Option.some.injEq] at h1
+    subst h1
+    refine ⟨mapE VFrac.val e', by rw [e1, lookup_nat, hl]; rfl, e'.d.2, h2⟩
+
+/-- non-vacuity at `Frac`: the hypotheses are met by the example tree, so the theorem speaks about cells the driver prints -/
+example : ∀ e ∈ entries fracLen taxonKey exTree, e.d.den ≠ 0 ∧
+    turn ratLen taxonKey exTree e.a e.b = some (toRat e.d, e.steps, e.mrca) :=
+  frac_pdm_spec exTree (by unfold Good; decide)
+example : (entries fracLen taxonKey exTree).length = 6 := by decide
+
+
+/-! ### naturality of `nj_tree` / `upgma_tree` in the number type -/
+section njnat
+variable {α β : Type}
+variable [Zero α] [Add α] [Sub α] [Mul α] [Div α] [NatCast α] [LT α] [DecidableRel (α := α) (· < ·)]
+variable [Zero β] [Add β] [Sub β] [Mul β] [Div β] [NatCast β] [LT β] [DecidableRel (α := β) (· < ·)]
+
+/-- `φ` commutes with every operation the NJ / UPGMA models use and preserves and reflects `<` -/
+structure IsNumHom (φ : α → β) : Prop where
+  zero : φ 0 = 0
+  add : ∀ x y, φ (x + y) = φ x + φ y
+  sub : ∀ x y, φ (x - y) = φ x - φ y
+  mul : ∀ x y, φ (x * y) = φ x * φ y
+  div : ∀ x y, φ (x / y) = φ x / φ y
+  natCast : ∀ n : Nat, φ (n : α) = (n : β)
+  lt : ∀ x y, x < y ↔ φ x < φ y
+
+def mapNT (φ : α → β) : NT α → NT β
+  | .leaf i => .leaf i
+  | .node f lf g lg => .node (mapNT φ f) (φ lf) (mapNT φ g) (φ lg)
+
+/-- two NJ states that are the same up to relabelling the numbers -/
+def NJRel (φ : α → β) (s : NJ α) (s' : NJ β) : Prop :=
+  s'.pool = s.pool ∧ s'.next = s.next ∧ (∀ a b, s'.d a b = φ (s.d a b)) ∧ (∀ k, s'.x k = φ (s.x k)) ∧
+    (∀ k, s'.sub k = mapNT φ (s.sub k))
+
+namespace Aux
+theorem foldl_hom (φ : α → β) (hφ : IsNumHom φ) (f : Nat → α) : ∀ (l : List Nat) (a : α),
+    φ (l.foldl (fun acc m => acc + f m) a) = l.foldl (fun acc m => acc + φ (f m)) (φ a)
+  | [], a => rfl
+  | x :: l, a => by simp only [List.foldl_cons]; rw [foldl_hom φ hφ f l, hφ.add]
+
+theorem argmin_hom {γ : Type} (φ : α → β) (hφ : IsNumHom φ) (val : γ → α) (val' : γ → β) (hv : ∀ p, val' p = φ (val p)) :
+    ∀ (l : List γ) (acc : Option (γ × α)),
+      argmin val' l (acc.map fun r => (r.1, φ r.2)) = (argmin val l acc).map fun r => (r.1, φ r.2)
+  | [], acc => by simp [argmin]
+  | p :: ps, none => by
+    simp only [argmin, Option.map_none]
+    have := argmin_hom φ hφ val val' hv ps (some (p, val p))
+    simp only [Option.map_some] at this
+    rw [← this, hv]
+  | p :: ps, some (q, m) => by
+    simp only [argmin, Option.map_some]
+    by_cases h : val p < m
+    · have h' : val' p < φ m := by rw [hv]; exact (hφ.lt _ _).mp h
+      simp only [h, h', if_true]
+      have := argmin_hom φ hφ val val' hv ps (some (p, val p))
+      simp only [Option.map_some] at this
+      rw [← this, hv]
+    · have h' : ¬ val' p < φ m := by rw [hv]; exact fun c => h ((hφ.lt _ _).mpr c)
+      simp only [h, h', if_false]
+      have := argmin_hom φ hφ val val' hv ps (some (q, m))
+      simp only [Option.map_some] at this
+      exact this
+
+theorem nj_init_rel (φ : α → β) (hφ : IsNumHom φ) (n : Nat) (d : Nat → Nat → α) :
+    NJRel φ (njInit n d) (njInit n fun a b => φ (d a b)) := by
+  refine ⟨rfl, rfl, fun _ _ => rfl, fun k => ?_, fun _ => rfl⟩
+  simp only [njInit, rowSum]
+  rw [foldl_hom φ hφ, hφ.zero]
+
+theorem nj_pick_rel (φ : α → β) (hφ : IsNumHom φ) (s : NJ α) (s' : NJ β) (h : NJRel φ s s') : njPick s' = njPick s := by
+  obtain ⟨hp, hn, hd, hx, hs⟩ := h
+  have hq : ∀ p, qval s' p = φ (qval s p) := by
+    intro p
+    simp only [qval, hp, hd, hx, hφ.sub, hφ.mul, hφ.natCast]
+  have := argmin_hom φ hφ (qval s) (qval s') hq (pairsOf s.pool) none
+  simp only [Option.map_none] at this
+  simp only [njPick, hp, this, Option.map_map]
+  cases argmin (qval s) (pairsOf s.pool) none <;> rfl
+
+theorem nj_join_rel (φ : α → β) (hφ : IsNumHom φ) (s : NJ α) (s' : NJ β) (h : NJRel φ s s') (f g : Nat) :
+    NJRel φ (njJoin s f g) (njJoin s' f g) := by
+  obtain ⟨hp, hn, hd, hx, hs⟩ := h
+  have hnd : ∀ k, njNewDist s' f g k = φ (njNewDist s f g k) := by
+    intro k; simp only [njNewDist, hd, hφ.div, hφ.sub, hφ.add, hφ.zero, hφ.natCast]
+  have hl : njLengths s' f g = ((φ (njLengths s f g).1), φ (njLengths s f g).2) := by
+    simp only [njLengths, hp, hd, hx]
+    split
+    · simp only [hφ.add, hφ.div, hφ.sub, hφ.natCast]
+    · simp only [hφ.div, hφ.natCast]
+  refine ⟨by simp [njJoin, hp, hn], by simp [njJoin, hn], ?_, ?_, ?_⟩
+  · intro a b
+    simp only [njJoin, hn, hnd, hd]
+    split
+    · rfl
+    · split <;> rfl
+  · intro k
+    simp only [njJoin, hn, hp, hnd, hd, hx]
+    split
+    · rw [foldl_hom φ hφ, hφ.zero]
+    · simp only [hφ.sub, hφ.add]
+  · intro k
+    simp only [njJoin, hn, hl, hs]
+    split <;> simp [mapNT]
+
+theorem nj_run_rel (φ : α → β) (hφ : IsNumHom φ) : ∀ (fuel : Nat) (s : NJ α) (s' : NJ β), NJRel φ s s' →
+    NJRel φ (njRun fuel s) (njRun fuel s')
+  | 0, s, s', h => h
+  | fuel + 1, s, s', h => by
+    simp only [njRun, h.1]
+    split
+    · apply nj_run_rel φ hφ fuel
+      simp only [njStep, nj_pick_rel φ hφ s s' h]
+      cases njPick s with
+      | none => exact h
+      | some p => exact nj_join_rel φ hφ s s' h p.1 p.2
+    · exact h
+end Aux
+end njnat
+
+namespace VFrac
+theorem val_num : IsNumHom val :=
+  ⟨rfl, fun _ _ => rfl, fun _ _ => rfl, fun _ _ => rfl, fun _ _ => rfl, fun _ => rfl, fun _ _ => Iff.rfl⟩
+theorem rat_num : IsNumHom rat :=
+  ⟨toRat_zero, fun a b => (toRat_add a.1 b.1 a.2 b.2).2, fun a b => (toRat_sub a.1 b.1 a.2 b.2).2,
+   fun a b => (toRat_mul a.1 b.1 a.2 b.2).2, fun a b => (toRat_div a.1 b.1 a.2 b.2).2,
+   fun n => (toRat_natCast n).2, fun a b => toRat_lt a.1 b.1 a.2 b.2⟩
+end VFrac
+
+/-- (d, at the driver's own type) `frac_nj_rowsum_invariant`: run on `Frac` — what `drv_c14` executes — from any matrix whose
+cells denote numbers and which is symmetric on the `n` taxa, after any number of passes the pool, the join choices and the
+tree built are those of the run on the denoted rationals, and every `_nj_xsub` denotes the sum of the denoted current
+distances to the other pool members. -/
+theorem frac_nj_rowsum_invariant (n : Nat) (d : Nat → Nat → Frac) (hv : ∀ a b, (d a b).den ≠ 0)
+    (hd : ∀ a < n, ∀ b < n, toRat (d a b) = toRat (d b a)) (fuel : Nat) :
+    NJRel toRat (njRun fuel (njInit n d)) (njRun fuel (njInit n fun a b => toRat (d a b))) ∧
+    ∀ k ∈ (njRun fuel (njInit n d)).pool,
+      toRat ((njRun fuel (njInit n d)).x k) =
+        (((njRun fuel (njInit n d)).pool.filter (fun m => m ≠ k)).map
+          (fun m => toRat ((njRun fuel (njInit n d)).d k m))).sum := by
+  let dV : Nat → Nat → VFrac := fun a b => ⟨d a b, hv a b⟩
+  have r1 := nj_run_rel VFrac.val VFrac.val_num fuel _ _ (nj_init_rel VFrac.val VFrac.val_num n dV)
+  have r2 := nj_run_rel VFrac.rat VFrac.rat_num fuel _ _ (nj_init_rel VFrac.rat VFrac.rat_num n dV)
+  have inv := nj_rowsum_invariant n (fun a b => toRat (d a b)) hd fuel
+  change NJRel VFrac.val (njRun fuel (njInit n dV)) (njRun fuel (njInit n d)) at r1
+  change NJRel VFrac.rat (njRun fuel (njInit n dV)) (njRun fuel (njInit n fun a b => toRat (d a b))) at r2
+  obtain ⟨p1, n1, d1, x1, s1⟩ := r1
+  obtain ⟨p2, n2, d2, x2, s2⟩ := r2
+  have hsub : ∀ (u : NT VFrac), mapNT VFrac.rat u = mapNT toRat (mapNT VFrac.val u) := by
+    intro u; induction u with
+    | leaf i => rfl
+    | node f lf g lg ihf ihg => simp only [mapNT, ihf, ihg]; rfl
+  refine ⟨⟨by rw [p2, p1], by rw [n2, n1], fun a b => by rw [d2, d1]; rfl, fun k => by rw [x2, x1]; rfl,
+    fun k => by rw [s2, s1, hsub]⟩, ?_⟩
+  intro k hk
+  have hk' : k ∈ (njRun fuel (njInit n fun a b => toRat (d a b))).pool := by rw [p2, ← p1]; exact hk
+  have := inv.rows k hk'
+  rw [x2, p2, ← p1] at this
+  rw [x1]
+  refine this.trans ?_
+  congr 1
+  apply List.map_congr_left
+  intro m _
+  rw [d2, d1]; rfl
+
+
+/-- (d, at the driver's own type) `frac_nj_tree`: for `n ≥ 1` taxa the driver's `nj_tree` run terminates with a tree, and that
+tree denotes (same shape, same joins, lengths read through `toRat`) the tree neighbour joining computes over ℚ. -/
+theorem frac_nj_tree (n : Nat) (d : Nat → Nat → Frac) (hv : ∀ a b, (d a b).den ≠ 0)
+    (hd : ∀ a < n, ∀ b < n, toRat (d a b) = toRat (d b a)) (hn : 1 ≤ n) :
+    ∃ r, njTree n d = some r ∧ njTree n (fun a b => toRat (d a b)) = some (mapNT toRat r) := by
+  obtain ⟨rq, hq⟩ := nj_terminates n (fun a b => toRat (d a b)) hd hn
+  obtain ⟨⟨hp, _, _, _, hs⟩, _⟩ := frac_nj_rowsum_invariant n d hv hd n
+  simp only [njTree] at hq ⊢
+  rw [hp] at hq ⊢
+  cases hpool : (njRun n (njInit n d)).pool with
+  | nil => simp [hpool] at hq
+  | cons k rest =>
+    cases rest with
+    | nil => exact ⟨_, rfl, by simp only [hs]⟩
+    | cons k2 rest2 => simp [hpool] at hq
+
+section upnat
+variable {α β : Type}
+variable [Zero α] [Add α] [Sub α] [Mul α] [Div α] [NatCast α] [LT α] [DecidableRel (α := α) (· < ·)]
+variable [Zero β] [Add β] [Sub β] [Mul β] [Div β] [NatCast β] [LT β] [DecidableRel (α := β) (· < ·)]
+
+def UPRel (φ : α → β) (s : UP α) (s' : UP β) : Prop :=
+  s'.pool = s.pool ∧ s'.next = s.next ∧ (∀ a b, s'.d a b = φ (s.d a b)) ∧ (∀ k, s'.cl k = s.cl k) ∧
+    (∀ k, s'.h k = φ (s.h k)) ∧ (∀ k, s'.sub k = mapNT φ (s.sub k))
+
+namespace Aux
+theorem up_init_rel (φ : α → β) (hφ : IsNumHom φ) (n : Nat) (M : Nat → Nat → α) :
+    UPRel φ (upInit n M) (upInit n fun a b => φ (M a b)) := by
+  refine ⟨rfl, rfl, fun a b => ?_, fun _ => rfl, fun _ => hφ.zero.symm, fun _ => rfl⟩
+  simp only [upInit]; split <;> rfl
+
+theorem up_pick_rel (φ : α → β) (hφ : IsNumHom φ) (s : UP α) (s' : UP β) (h : UPRel φ s s') : upPick s' = upPick s := by
+  obtain ⟨hp, hn, hd, hc, hh, hs⟩ := h
+  have := argmin_hom φ hφ (fun p : Nat × Nat => s.d p.1 p.2) (fun p : Nat × Nat => s'.d p.1 p.2) (fun p => hd p.1 p.2)
+    (pairsOf s.pool) none
+  simp only [Option.map_none] at this
+  simp only [upPick, hp, this, Option.map_map]
+  cases argmin (fun p : Nat × Nat => s.d p.1 p.2) (pairsOf s.pool) none <;> rfl
+
+theorem up_join_rel (φ : α → β) (hφ : IsNumHom φ) (s : UP α) (s' : UP β) (h : UPRel φ s s') (f g : Nat) :
+    UPRel φ (upJoin s f g) (upJoin s' f g) := by
+  obtain ⟨hp, hn, hd, hc, hh, hs⟩ := h
+  have hnd : ∀ k, upNewDist s' f g k = φ (upNewDist s f g k) := by
+    intro k; simp only [upNewDist, hd, hc, hφ.div, hφ.add, hφ.mul, hφ.zero, hφ.natCast]
+  refine ⟨by simp [upJoin, hp, hn], by simp [upJoin, hn], ?_, ?_, ?_, ?_⟩
+  · intro a b
+    simp only [upJoin, hn, hnd, hd]
+    split
+    · rfl
+    · split <;> rfl
+  · intro k; simp only [upJoin, hn, hc]
+  · intro k
+    simp only [upJoin, hn, hd, hh]
+    split
+    · simp only [hφ.add, hφ.sub, hφ.div, hφ.natCast]
+    · rfl
+  · intro k
+    simp only [upJoin, hn, hd, hh, hs]
+    split
+    · simp only [mapNT, hφ.sub, hφ.div, hφ.natCast]
+    · rfl
+
+theorem up_run_rel (φ : α → β) (hφ : IsNumHom φ) : ∀ (fuel : Nat) (s : UP α) (s' : UP β), UPRel φ s s' →
+    UPRel φ (upRun fuel s) (upRun fuel s')
+  | 0, s, s', h => h
+  | fuel + 1, s, s', h => by
+    simp only [upRun, h.1]
+    split
+    · apply up_run_rel φ hφ fuel
+      simp only [upStep, up_pick_rel φ hφ s s' h]
+      cases upPick s with
+      | none => exact h
+      | some p => exact up_join_rel φ hφ s s' h p.1 p.2
+    · exact h
+end Aux
+end upnat
+
+/-- (d, at the driver's own type) `frac_upgma_tree`: for `n ≥ 1` taxa and cells that denote numbers, the driver's `upgma_tree` run
+terminates with a tree that denotes the tree UPGMA computes over ℚ (same joins); hence (`upgma_tree_ultrametric`) all its
+leaves denote the same depth. -/
+theorem frac_upgma_tree (n : Nat) (M : Nat → Nat → Frac) (hv : ∀ a b, (M a b).den ≠ 0) (hn : 1 ≤ n) :
+    ∃ r, upgmaTree n M = some r ∧ upgmaTree n (fun a b => toRat (M a b)) = some (mapNT toRat r) ∧
+      ∃ H : ℚ, ∀ x ∈ NT.depths (mapNT toRat r), x = H := by
+  let MV : Nat → Nat → VFrac := fun a b => ⟨M a b, hv a b⟩
+  have r1 := up_run_rel VFrac.val VFrac.val_num n _ _ (up_init_rel VFrac.val VFrac.val_num n MV)
+  have r2 := up_run_rel VFrac.rat VFrac.rat_num n _ _ (up_init_rel VFrac.rat VFrac.rat_num n MV)
+  change UPRel VFrac.val (upRun n (upInit n MV)) (upRun n (upInit n M)) at r1
+  change UPRel VFrac.rat (upRun n (upInit n MV)) (upRun n (upInit n fun a b => toRat (M a b))) at r2
+  obtain ⟨rq, hq⟩ := upgma_terminates n (fun a b => toRat (M a b)) hn
+  have hsub : ∀ (u : NT VFrac), mapNT VFrac.rat u = mapNT toRat (mapNT VFrac.val u) := by
+    intro u; induction u with
+    | leaf i => rfl
+    | node f lf g lg ihf ihg => simp only [mapNT, ihf, ihg]; rfl
+  have hu := upgma_tree_ultrametric n (fun a b => toRat (M a b)) rq hq
+  simp only [upgmaTree] at hq ⊢
+  have hp : (upRun n (upInit n fun a b => toRat (M a b))).pool = (upRun n (upInit n M)).pool := by rw [r2.1, ← r1.1]
+  rw [hp] at hq
+  cases hpool : (upRun n (upInit n M)).pool with
+  | nil => simp [hpool] at hq
+  | cons k rest =>
+    cases rest with
+    | nil =>
+      simp only [hpool] at hq
+      injection hq with hq
+      have hs : (upRun n (upInit n fun a b => toRat (M a b))).sub k = mapNT toRat ((upRun n (upInit n M)).sub k) := by
+        rw [r2.2.2.2.2.2 k, r1.2.2.2.2.2 k, hsub]
+      refine ⟨_, rfl, ?_, ?_⟩
+      · rw [hp, hpool]; simp only [hs]
+      · rw [← hs, hq]; exact hu
+    | cons k2 rest2 => simp [hpool] at hq
+
+/-- non-vacuity: a 3-taxon matrix at `Frac` meets the hypotheses -/
+example := frac_nj_tree 3 (fun a b => if a = b then (0 : Frac) else Frac.ofNat (a + b))
+  (fun a b => by by_cases h : a = b <;> simp [h, ok_zero, Frac.ofNat])
+  (fun a _ b _ => by by_cases h : a = b <;> simp [h, eq_comm, Nat.add_comm]) (by decide)
+example := frac_upgma_tree 3 (fun a b => if a = b then (0 : Frac) else Frac.ofNat (a + b))
+  (fun a b => by by_cases h : a = b <;> simp [h, ok_zero, Frac.ofNat]) (by decide)
+
+/-! non-vacuity of the follow-up statements -/
+example := mean_pairwise_spec (α := ℚ) (fun r => r.1) (fun _ => 1) taxonKey exTree (by unfold Good; decide) 1 (fun _ => true)
+example := mean_pairwise_spec (α := ℚ) (fun r => (r.2.1 : ℚ)) (fun _ => 1) taxonKey exTree (by unfold Good; decide) 7 (fun k => k != 1)
+example := mntd_spec (α := ℚ) (fun r => r.1) (fun _ => 1) taxonKey exTree (by unfold Good; decide) 1 (fun _ => true)
+example : UPHeights (upRun 3 (upInit (α := ℚ) 3 fun a b => (a + b : ℚ))) := upgma_ultrametric 3 _ 3
+/-- the never-encoded entry path (all stored masks 0, no refresh requested) -/
+example : (treeMrca true false (fun _ => 0) 5 0 exTree matches .found _ (some _)) = true := by decide
+
+
+namespace Aux
+theorem sum_hom {α β : Type} [Zero α] [Add α] [Zero β] [Add β] (φ : α → β) (h0 : φ 0 = 0) (ha : ∀ x y, φ (x + y) = φ x + φ y) :
+    ∀ l : List α, φ l.sum = (l.map φ).sum
+  | [] => by simp [h0]
+  | x :: l => by simp [List.sum_cons, ha, sum_hom φ h0 ha l]
+end Aux
+
+/-- (b, at the driver's own type) `frac_mean_pairwise`: the weighted mean pairwise summary `drv_c14` prints (any filter, any
+normalisation factor that denotes a number) denotes the explicit mean of `mean_pairwise_spec` computed over ℚ. -/
+theorem frac_mean_pairwise (t : T) (h : Good taxonKey t) (norm : Frac) (hn : norm.den ≠ 0) (keep : Nat → Bool) :
+    (meanPairwise (fun e => e.d) norm keep (entries fracLen taxonKey t)).map toRat =
+      let L := ((pairsOf (t.leaves.map taxonKey)).filter fun p => keep p.1 && keep p.2).map
+        (pathVal (fun r => r.1) ratLen taxonKey t)
+      if L = [] then none else some ((L.sum / toRat norm) / (L.length : ℚ)) := by
+  have hq := mean_pairwise_spec (α := ℚ) (fun r => r.1) ratLen taxonKey t h (toRat norm) keep
+  simp only at hq
+  rw [← hq]
+  have e1 : entries fracLen taxonKey t = (entries fracLenV taxonKey t).map (mapE VFrac.val) :=
+    entries_nat VFrac.val VFrac.val_hom fracLenV taxonKey t
+  have e2 : entries ratLen taxonKey t = (entries fracLenV taxonKey t).map (mapE VFrac.rat) :=
+    entries_nat VFrac.rat VFrac.rat_hom fracLenV taxonKey t
+  -- the value lists correspond
+  have hv1 : pairValues (fun e : Entry Nat Frac => e.d) keep (entries fracLen taxonKey t) =
+      (pairValues (fun e : Entry Nat VFrac => e.d) keep (entries fracLenV taxonKey t)).map VFrac.val := by
+    rw [e1]; simp [pairValues, List.filter_map, List.map_map, mapE, Function.comp_def]
+  have hv2 : pairValues (fun e : Entry Nat ℚ => e.d) keep (entries ratLen taxonKey t) =
+      (pairValues (fun e : Entry Nat VFrac => e.d) keep (entries fracLenV taxonKey t)).map VFrac.rat := by
+    rw [e2]; simp [pairValues, List.filter_map, List.map_map, mapE, Function.comp_def]
+  simp only [meanPairwise, meanOf, hv1, hv2, List.isEmpty_map, List.length_map]
+  generalize pairValues (fun e : Entry Nat VFrac => e.d) keep (entries fracLenV taxonKey t) = L
+  split
+  · rfl
+  · simp only [Option.map_some]
+    congr 1
+    have hs : ((L.map VFrac.val).sum) = VFrac.val L.sum := (sum_hom VFrac.val rfl (fun _ _ => rfl) L).symm
+    have hs' : ((L.map VFrac.rat).sum) = VFrac.rat L.sum := (sum_hom VFrac.rat VFrac.rat_hom.zero VFrac.rat_hom.add L).symm
+    rw [hs, hs']
+    have d1 := toRat_div (VFrac.val L.sum) norm L.sum.2 hn
+    have d2 := toRat_div (VFrac.val L.sum / norm) ((L.length : Nat) : Frac) d1.1 (toRat_natCast L.length).1
+    rw [d2.2, d1.2, (toRat_natCast L.length).2]
+    rfl
+
+example := frac_mean_pairwise exTree (by unfold Good; decide) Frac.one (by decide) (fun _ => true)
 
 end DendroModel.C14
